@@ -36,7 +36,7 @@ REAL_STUB = {
              "klongpy.db.df_cache.PandasDataFrameCache", "klongpy.db.sys_fn_db.Table", "pickle, pandas"],
     "stub": ["open/os -> SimFS", "time.time_ns -> virtual counter", "lock/executor -> SimLock/SimExecutor (worker tasks are actors)"],
 }
-EXPECTED_PROBES = ["probe_eviction", "probe_reopen", "probe_get_after_evict", "probe_oversize_rejected", "probe_missing_get",
+EXPECTED_PROBES = ["probe_twin_values_set_in_a_row", "probe_eviction", "probe_reopen", "probe_get_after_evict", "probe_oversize_rejected", "probe_missing_get",
                    "probe_overwrite", "probe_unload", "probe_table_merge_conflict", "probe_table_with_holes_read",
                    "probe_table_stored_with_pending_insert", "probe_table_batch_unordered_or_repeating", "probe_get_raised_after_read_error",
                    "probe_missing_get_on_the_path_of_a_set_key", "probe_returned_table_mutated", "probe_epilogue_pressure_set",
@@ -44,6 +44,10 @@ EXPECTED_PROBES = ["probe_eviction", "probe_reopen", "probe_get_after_evict", "p
 WALL_CAP = {"quick": 300, "thorough": 3600}
 
 _fc = _kvs = _dfc = None
+
+
+TWIN_VALUES = [('"aca"', '"bab"'), ("[1 3 1]", "[2 1 2]"), ('"ab"', '"ba"'), ("[1 2]", "[2 1]"), ('"aXb"', '"aYb"'), ("[10 20 30]", "[30 20 10]"),
+               (':{[1 "aca"]}', ':{[1 "bab"]}'), ("[[1 2] [3 4]]", "[[3 4] [1 2]]"), ("1.5", "2.5"), ('["ad" "bc"]', '["bc" "ad"]')]
 
 
 def setup_worker():
@@ -152,6 +156,18 @@ def scenario(ch, cfg):
     sizes = []
     for _ in range(nops):
         k = ch.weighted([6, 7, 2, 2, 2, 1], "op")
+        if k == 0 and ch.chance(1, 7, "twins"):
+            # two sets of one key in a row whose values have the same length and differ by a permutation / by compensating
+            # byte changes (what a length, sum or Adler-style fingerprint cannot tell apart): the second one is the latest set
+            a, b = TWIN_VALUES[ch.draw(len(TWIN_VALUES), "twin")]
+            if ch.draw(2, "twinorder"):
+                a, b = b, a
+            key = keys[ch.draw(nkeys, "k")]
+            for lit in (a, b):
+                ops.append(["set", key, lit])
+                sizes.append(len(serialize_obj(twin(f'"{key}",,{lit}')[1])))
+            w.stats["probe_twin_values_set_in_a_row"] += 1
+            continue
         if k == 0:
             lit = big_literal(ch) if ch.chance(1, 12, "big") else gen_literal(ch, allow_undef=True)
             if lit.startswith("0c"):
